@@ -111,6 +111,29 @@ Proof.
 Qed.
 Print Assumptions C30_ro_only.
 
+(** retry class: every command one Exec issues carries the retryable tag [issue_flag] assigns to its kind — a function
+    of the script's constructor and the command kind only.  In particular the EVAL / EVAL_RO sent after a NOSCRIPT
+    reply has exactly the class of the EVALSHA / EVALSHA_RO before it (the script's class, no class of its own), and
+    for a script that is neither retryable nor read-only no EVAL-family command may be re-sent by the client's retry
+    loop — so a lost reply of the fallback EVAL cannot make the body run again. *)
+Theorem C30_fallback_keeps_retry_class : forall (o : opts) (rt : bool),
+  issue_flag rt (eval_cmd o) = issue_flag rt (sha_cmd o)
+  /\ (rt = false -> readonly o = false ->
+      resend_allowed rt (eval_cmd o) = false /\ resend_allowed rt (sha_cmd o) = false)
+  /\ forall (x : xstate) (tag : N), consistent o (known x) = true ->
+      exists added, trace (fst (exec o x tag)) = trace x ++ added /\
+        Forall (fun p => is_load (fst (fst p)) = false ->
+                  issue_flag rt (fst (fst p)) = (rt || readonly o)) added.
+Proof.
+  intros o rt. split; [destruct o as [[] ns ls]; reflexivity|]. split.
+  - intros -> Hro. destruct o as [ro ns ls]. cbn in Hro. subst ro. split; reflexivity.
+  - intros x tag Hc. destruct (C30_ro_only o x tag Hc) as [added [Ht Hall]]. exists added. split; [exact Ht|].
+    apply Forall_forall. intros p Hp Hl. rewrite Forall_forall in Hall. specialize (Hall p Hp Hl).
+    destruct (fst (fst p)), (readonly o), rt; cbn in *; try discriminate; reflexivity.
+Qed.
+Print Assumptions C30_fallback_keeps_retry_class.
+
+
 (** WithLoadSHA1: over any history of Exec/ExecMulti from a fresh Lua value, the SHA-1 is known exactly
     when some SCRIPT LOAD has succeeded, it stays known, and an Exec sends SCRIPT LOAD iff it is unknown —
     so Exec asks for the SHA-1 only until the first success *)
